@@ -92,3 +92,17 @@ Theorem C29_load_selfheal_keeps_name :
   (fname <> [] -> scan_name decompress crc (render compress crc hm f) = Some fname).
 Proof. exact selfheal_keeps_name. Qed.
 Print Assumptions C29_load_selfheal_keeps_name.
+
+(* paged listing: consecutive pages of any size tile the listing (nothing skipped, nothing shown
+   twice), and with a positive page size enough pages give back exactly the whole listing *)
+Theorem C29_pages_tile_the_listing :
+  forall (A : Type) (n off lim : nat) (l : list A),
+  skipn off l = pages n off lim l ++ skipn (off + n * lim) l.
+Proof. exact @pages_tile. Qed.
+Print Assumptions C29_pages_tile_the_listing.
+
+Theorem C29_pages_cover_the_listing :
+  forall (A : Type) (n lim : nat) (l : list A),
+  (length l <= n * lim)%nat -> pages n 0 lim l = l.
+Proof. exact @pages_cover. Qed.
+Print Assumptions C29_pages_cover_the_listing.
